@@ -12,7 +12,12 @@ B: (typing) get_mol2_type -> set_mol2_type on a fresh atom -> get_mol2_type is r
    atoms are put without copying into a Promolecule / Structure that is kept alive or dropped again, or looked at through a
    Substructure / Conformer view - which changes nothing in the object) and written / read once more, so that anything the
    writer remembers from the first write (cached tokens) or looks up outside the object being written (atom.idx / parent)
-   shows up as a contract violation.
+   shows up as a contract violation.  HISTORY INDEPENDENCE: the round trips run in fresh worker processes, each with
+   its own order of cases, interleaved with unrelated public-API calls (set/get_mol2_type on already-typed atoms and bonds
+   for the tokens of the text under test, reading / writing the previous case's text / object) before the first read and
+   before a second read of the same text; every distinct token is, in another fresh process, first interpreted on
+   already-typed atoms and only then on a fresh one.  History events are stuttering steps of the spec; RereadSame demands
+   that the same text reads back as the same object.
    All traces are validated by TLC against Mol2TextTrace: a step
    is accepted only if the contract holds in the state it leads to.  Python never decides a verdict."""
 from __future__ import annotations
@@ -35,7 +40,7 @@ KNOWN: dict = {
 }
 
 CLAUSES = ("WriteSucceeds", "Accepted", "ConformersPreserved", "NamePreserved", "AtomsPreserved", "LabelsPreserved",
-           "CoordsPreserved", "ChargesPreserved", "BondsPreserved", "TextFixedPoint", "ReadStable")
+           "CoordsPreserved", "ChargesPreserved", "BondsPreserved", "TextFixedPoint", "ReadStable", "RereadSame")
 TYPING_CLAUSES = ("AtomTyping", "BondTyping")
 MC_ACTIONS = ("Build", "Write", "Read", "Write2", "Read2")
 EDIT_ACTIONS = ("PickEdit", "ApplyEdit")
@@ -58,8 +63,12 @@ DEVIATIONS = {
     "StaleAtomTokenCache": ("DevStaleAtom", ("AtomsPreserved",)),
     # a writer that asks the atoms for their index (atom.idx -> atom.parent) instead of the object being written
     "EndpointsViaParentIndex": ("DevParentIdx", ("BondsPreserved", "WriteSucceeds")),
+    # a reader whose result for a token depends on what the process did with that token before (memo filled from a
+    # pre-typed atom): the read is no longer a function of the text
+    "ReaderMemoFromHistory": ("DevMemo", ("TextFixedPoint", "RereadSame", "ReadStable")),
 }
 EDIT_DEVIATIONS = ("StaleBondTokenCache", "StaleAtomTokenCache", "EndpointsViaParentIndex")   # need the model with edits
+HIST_DEVIATIONS = ("ReaderMemoFromHistory",)                                                   # need History / Reread
 
 _VOC = None
 
@@ -101,7 +110,10 @@ MODELS = {
 }
 
 
-NO_EDITS = dict(MaxEdits=0, EditBonds="<- NoBonds", EditPhases="<- NoPhase", AliasPick="<- NoBonds")
+NO_EDITS = dict(MaxEdits=0, EditBonds="<- NoBonds", EditPhases="<- NoPhase", AliasPick="<- NoBonds", WithHistory="FALSE")
+# history independence: unrelated API calls (History, once, in any phase) and a second read of the same text (Reread)
+MODELS["hist"] = dict(Kinds="<- K3", Names="<- Names1", AtomPool="<- PoolS", BondPool="<- BondsM", MaxAtoms=2, MaxBonds=1,
+                      MaxConfs=2, WithHistory="TRUE")
 # build, write, read, write, read, then ONE edit of the same object (bond re-typed, atom re-typed/re-labelled, atom moved,
 # renamed) and the whole cycle again: <= 2 atoms from 3 recipes, <= 1 bond of 3 types, <= 2 conformers, 3 kinds, 2 names
 MODELS["edit"] = dict(Kinds="<- K3", Names="<- Names2", AtomPool="<- PoolT", BondPool="<- BondsM", MaxAtoms=2, MaxBonds=1,
@@ -116,7 +128,7 @@ def mc_cfg(model, dev="DevNone"):
 
 def trace_cfg(clauses="<- AllClauses"):
     c = {**voc_consts(), "Kinds": "<- Empty", "Names": "<- Empty", "AtomPool": "<- Empty", "BondPool": "<- Empty",
-         "MaxAtoms": 0, "MaxBonds": 0, "MaxConfs": 0, "MaxEdits": 0, "EditBonds": "<- Empty", "EditPhases": "<- Empty", "AliasPick": "<- Empty",
+         "MaxAtoms": 0, "MaxBonds": 0, "MaxConfs": 0, "MaxEdits": 0, "EditBonds": "<- Empty", "EditPhases": "<- Empty", "AliasPick": "<- Empty", "WithHistory": "FALSE",
          "XyzSeq": "<- NoSeq", "QSeq": "<- NoSeq", "Deviations": "<- Empty",
          "Clauses": clauses}
     return dict(spec="TraceSpec", constants=c)
@@ -127,6 +139,7 @@ def model_jobs(tier):
     jobs = [("mc", "typing", "Mol2Text: every element x atom type x geometry triple through Write/Read/Write/Read", 2),
             ("mc", "small", "Mol2Text: all bounded structures (<=2 atoms, every bond type, <=2 conformers, 3 kinds)", 1),
             ("mc", "edit", "Mol2Text: full cycle, every single edit of the same object, full cycle again (<=2 atoms, <=1 bond)", 2)]
+    jobs.append(("mc", "hist", "Mol2Text: History (unrelated API calls) at any point + the same text read again (<=2 atoms, <=1 bond)", 1))
     if tier == "thorough":
         jobs += [("mc", "medium", "Mol2Text: all bounded structures (<=3 atoms, <=1 bond of every type, <=3 conformers)", 4),
                  ("mc", "bonds", "Mol2Text: all bounded structures (<=3 atoms, <=3 bonds of 3 types, <=2 conformers)", 4)]
@@ -138,12 +151,13 @@ def run_model_job(job):
     kind, name, role, workers = job
     if kind == "mc":
         ev = Evidence(PROP, "x", 0)
-        acts = MC_ACTIONS + (("AddConf",) if name != "typing" else ()) + (EDIT_ACTIONS if name == "edit" else ())
+        acts = MC_ACTIONS + (("AddConf",) if name != "typing" else ()) + (EDIT_ACTIONS if name == "edit" else ()) \
+            + (("History", "Reread") if name == "hist" else ())
         r = model_check(ev, "MCMol2Text", mc_cfg(name), role=role, tag="c07mc", workers=workers, timeout=1500,
                         require_actions=acts)
         return job, r
     dname, clauses = DEVIATIONS[name]
-    r = expect_violation("MCMol2Text", mc_cfg("edit" if name in EDIT_DEVIATIONS else "dev", dname), clauses, tag="c07dev",
+    r = expect_violation("MCMol2Text", mc_cfg("edit" if name in EDIT_DEVIATIONS else "hist" if name in HIST_DEVIATIONS else "dev", dname), clauses, tag="c07dev",
                          workers=workers)
     if r.violated not in clauses:
         raise tlc.MachineryError(f"deviation {name}: TLC reported {r.violated}, documented clause(s) {clauses}")
@@ -153,7 +167,7 @@ def run_model_job(job):
 # --------------------------------------------------------------------------------------------- B: cases
 def generate(ev, tier, seed):
     """Objects generated by TLC: random walks over New/AddAtom/Connect/AddConf/Build of Mol2Text (bounds 'gen')."""
-    runs = [(600, seed)] if tier == "quick" else [(5000, seed * 4 + i) for i in range(4)]
+    runs = [(520, seed)] if tier == "quick" else [(5000, seed * 4 + i) for i in range(4)]
     cfg = mc_cfg("gen")
 
     def one(a):
@@ -216,23 +230,24 @@ def realise(case):
     return cls.load_mol2(str(p))
 
 
-def case_traces(ci, case, routes=("loads", "loads_all")):
-    """Real calls for one case; returns [(trace, meta)], number of molli calls, one sample text."""
-    out, calls, text = [], 0, None
+def case_traces(ci, case, routes=("loads", "loads_all"), hist=None):
+    """Real calls for one case; returns [(trace, meta)], number of molli calls, one sample text, the last real object."""
+    out, calls, text, o = [], 0, None, None
     for route in routes:
         o = realise(case)
         edit = (case["edits"], case["obj2"]) if route == "loads" and case.get("edits") else None
-        ev, n, t = A.run_case(o, route, edit)
+        ev, n, t = A.run_case(o, route, edit, hist)
         if case["src"] == "rec" and ev[0]["obj"] != case["obj"]:
             raise tlc.MachineryError("harness: the object built from a TLC recipe is not the object the spec describes:\n"
                                      + json.dumps({"spec": case["obj"], "built": ev[0]["obj"]})[:1500])
-        if edit and len(ev) > 5 and ev[5]["obj"] != case["obj2"]:
+        ed = [e for e in ev if e["ev"] == "edit"]
+        if ed and ed[0]["obj"] != case["obj2"]:
             raise tlc.MachineryError("harness: the edited object is not the object the spec's Edit actions describe:\n"
-                                     + json.dumps({"ops": case["edits"], "spec": case["obj2"], "edited": ev[5]["obj"]})[:1500])
+                                     + json.dumps({"ops": case["edits"], "spec": case["obj2"], "edited": ed[0]["obj"]})[:1500])
         calls += n
         text = text or t
         out.append(({"tid": f"c{ci}-{route}", "ev": ev}, {"case": ci, "route": route}))
-    return out, calls, text
+    return out, calls, text, o
 
 
 def typing_traces():
@@ -363,45 +378,57 @@ def binding_selftest(ev, rep):
     ed["blocks"][0]["atoms"][2].update(el="S", at="O_Sulfone", g="R4_Tetrahedral", lab="S1")
     mol = {**mol, "obj2": ed, "edits": [{"op": "alias", "mode": "promol", "atoms": [3, 1]}, {"op": "bond", "i": 1, "bt": "Double"},
                                         {"op": "atom", "i": 3, "el": "S", "at": "O_Sulfone", "g": "R4_Tetrahedral", "lab": "S1"}]}
-    base_m = case_traces("selfM", mol, routes=("loads",))[0][0][0]
-    assert [e["ev"] for e in base_m["ev"]] == ["build", "write", "read", "write2", "read2", "edit", "write", "read"], base_m
+    hist = {"where": ("before_read", "before_reread"), "rnd": random.Random(1), "prev": None}
+    base_m = case_traces("selfM", mol, routes=("loads",), hist=hist)[0][0][0]
+    assert [e["ev"] for e in base_m["ev"]] == ["build", "write", "history", "read", "history", "reread", "write2", "read2",
+                                               "edit", "write", "read"], [e["ev"] for e in base_m["ev"]]
     base_e = case_traces("selfE", ens, routes=("loads",))[0][0][0]
     base_t = {"tid": "selfT", "ev": A.typing_row("N", "N_Amide")[0]}
     muts = []
 
-    def mut(base, name, at, fn):
+    def ix(evs, name, nth=1):
+        return [k for k, e in enumerate(evs) if e["ev"] == name][nth - 1]
+
+    def mut(base, name, where, fn, shift=0):
+        """where = (event name, nth): fn(events, index of that event); the mutant must be rejected at that event (+shift)"""
         t = copy.deepcopy(base)
-        fn(t["ev"])
+        k = ix(t["ev"], *where) if isinstance(where, tuple) else where
+        fn(t["ev"], k)
         t["tid"] = f"mut-{name}"
-        muts.append((t, at))
-    rd = lambda evs, i=2: evs[i]["res"]["blocks"][0]
-    mut(base_m, "coord+2e-6", 3, lambda e: rd(e)["xyz"][0][0].__setitem__("f", rd(e)["xyz"][0][0]["f"] + 20))
-    mut(base_m, "charge+1.5e-3", 3, lambda e: rd(e)["q"].__setitem__(0, rd(e)["q"][0] + 150))
-    mut(base_m, "element", 3, lambda e: rd(e)["atoms"][1].__setitem__("el", "P"))
-    mut(base_m, "label", 3, lambda e: rd(e)["atoms"][0].__setitem__("lab", "C2"))
-    mut(base_m, "atoms-swapped", 3, lambda e: rd(e)["atoms"].reverse())
-    mut(base_m, "bond-endpoint", 3, lambda e: rd(e)["bonds"][0].__setitem__("b", 3))
-    mut(base_m, "bond-type", 3, lambda e: rd(e)["bonds"][0].__setitem__("bt", "Single"))
-    mut(base_m, "bond-dropped", 3, lambda e: rd(e)["bonds"].pop())
-    mut(base_m, "name", 3, lambda e: rd(e).__setitem__("name", "self  test"))
-    mut(base_m, "read-raises", 3, lambda e: e[2].__setitem__("res", {"out": "raise", "blocks": []}))
-    mut(base_m, "write-raises", 2, lambda e: e[1].__setitem__("res", {"out": "raise", "blocks": []}))
-    mut(base_m, "text2-type-token", 4, lambda e: rd(e, 3)["atoms"][1]["tok"].__setitem__("suf", "pl3"))
-    mut(base_m, "text2-charge", 4, lambda e: rd(e, 3)["atoms"][0].__setitem__("q", rd(e, 3)["atoms"][0]["q"] + 100))
-    mut(base_m, "read2-geometry", 5, lambda e: rd(e, 4)["atoms"][1].__setitem__("g", "Unknown"))
-    mut(base_m, "read-event-dropped", 3, lambda e: e.pop(2))
+        muts.append((t, k + 1 + shift))
+    blk = lambda e, k: e[k]["res"]["blocks"][0]
+    R1, W2, R2, RR, ED, R3 = ("read", 1), ("write2", 1), ("read2", 1), ("reread", 1), ("edit", 1), ("read", 2)
+    mut(base_m, "coord+2e-6", R1, lambda e, k: blk(e, k)["xyz"][0][0].__setitem__("f", blk(e, k)["xyz"][0][0]["f"] + 20))
+    mut(base_m, "charge+1.5e-3", R1, lambda e, k: blk(e, k)["q"].__setitem__(0, blk(e, k)["q"][0] + 150))
+    mut(base_m, "element", R1, lambda e, k: blk(e, k)["atoms"][1].__setitem__("el", "P"))
+    mut(base_m, "label", R1, lambda e, k: blk(e, k)["atoms"][0].__setitem__("lab", "C2"))
+    mut(base_m, "atoms-swapped", R1, lambda e, k: blk(e, k)["atoms"].reverse())
+    mut(base_m, "bond-endpoint", R1, lambda e, k: blk(e, k)["bonds"][0].__setitem__("b", 3))
+    mut(base_m, "bond-type", R1, lambda e, k: blk(e, k)["bonds"][0].__setitem__("bt", "Single"))
+    mut(base_m, "bond-dropped", R1, lambda e, k: blk(e, k)["bonds"].pop())
+    mut(base_m, "name", R1, lambda e, k: blk(e, k).__setitem__("name", "self  test"))
+    mut(base_m, "read-raises", R1, lambda e, k: e[k].__setitem__("res", {"out": "raise", "blocks": []}))
+    mut(base_m, "write-raises", ("write", 1), lambda e, k: e[k].__setitem__("res", {"out": "raise", "blocks": []}))
+    mut(base_m, "text2-type-token", W2, lambda e, k: blk(e, k)["atoms"][1]["tok"].__setitem__("suf", "pl3"))
+    mut(base_m, "text2-charge", W2, lambda e, k: blk(e, k)["atoms"][0].__setitem__("q", blk(e, k)["atoms"][0]["q"] + 100))
+    mut(base_m, "read2-geometry", R2, lambda e, k: blk(e, k)["atoms"][1].__setitem__("g", "Unknown"))
+    mut(base_m, "read-event-dropped", R1, lambda e, k: e.pop(k), shift=1)   # the history event that follows is a stutter
+    # history independence: the same text read again after unrelated calls must give the same typed atoms
+    mut(base_m, "reread-atom-type-differs", RR, lambda e, k: blk(e, k)["atoms"][0].__setitem__("at", "Aromatic"))
+    mut(base_m, "reread-geometry-differs", RR, lambda e, k: blk(e, k)["atoms"][1].__setitem__("g", "R4_Tetrahedral"))
+    mut(base_m, "reread-raises", RR, lambda e, k: e[k].__setitem__("res", {"out": "raise", "blocks": []}))
     # after the edit of the same object: what a stale per-object cache in the writer would make the reader return
-    mut(base_m, "stale-bond-type-after-edit", 8, lambda e: rd(e, 7)["bonds"][0].__setitem__("bt", "Amide"))
-    mut(base_m, "stale-element-after-edit", 8, lambda e: rd(e, 7)["atoms"][2].__setitem__("el", "O"))
-    mut(base_m, "stale-label-after-edit", 8, lambda e: rd(e, 7)["atoms"][2].__setitem__("lab", "O"))
-    mut(base_m, "foreign-endpoint-after-alias", 8, lambda e: rd(e, 7)["bonds"][1].__setitem__("a", 2))
-    mut(base_m, "edit-event-object-falsified", 8, lambda e: e[5]["obj"]["blocks"][0]["atoms"].reverse())
-    mut(base_m, "edit-event-dropped", 6, lambda e: e.pop(5))
-    mut(base_e, "conformers-swapped", 3, lambda e: e[2]["res"]["blocks"].reverse())
-    mut(base_e, "conformer-lost", 3, lambda e: e[2]["res"]["blocks"].pop())
-    mut(base_t, "typing-token2", 7, lambda e: e[6]["tok2"].__setitem__("suf", ""))
-    mut(base_t, "typing-element", 7, lambda e: e[6]["res"].__setitem__("el", "C"))
-    mut(base_t, "typing-rejected", 7, lambda e: e[6]["res"].__setitem__("out", "raise"))
+    mut(base_m, "stale-bond-type-after-edit", R3, lambda e, k: blk(e, k)["bonds"][0].__setitem__("bt", "Amide"))
+    mut(base_m, "stale-element-after-edit", R3, lambda e, k: blk(e, k)["atoms"][2].__setitem__("el", "O"))
+    mut(base_m, "stale-label-after-edit", R3, lambda e, k: blk(e, k)["atoms"][2].__setitem__("lab", "O"))
+    mut(base_m, "foreign-endpoint-after-alias", R3, lambda e, k: blk(e, k)["bonds"][1].__setitem__("a", 2))
+    mut(base_m, "edit-event-object-falsified", ED, lambda e, k: e[k]["obj"]["blocks"][0]["atoms"].reverse(), shift=2)
+    mut(base_m, "edit-event-dropped", ED, lambda e, k: e.pop(k))
+    mut(base_e, "conformers-swapped", R1, lambda e, k: e[k]["res"]["blocks"].reverse())
+    mut(base_e, "conformer-lost", R1, lambda e, k: e[k]["res"]["blocks"].pop())
+    mut(base_t, "typing-token2", 6, lambda e, k: e[k]["tok2"].__setitem__("suf", ""))
+    mut(base_t, "typing-element", 6, lambda e, k: e[k]["res"].__setitem__("el", "C"))
+    mut(base_t, "typing-rejected", 6, lambda e, k: e[k]["res"].__setitem__("out", "raise"))
     assert base_t["ev"][6]["g"] == "R3_Planar" and base_t["ev"][6]["tok"]["suf"] == "am", base_t["ev"][6]
     v, res = T.validate("Mol2TextTrace", [base_m, base_e, base_t] + [m for m, _ in muts], trace_cfg(), par=1, tag="c07st")
     bases_ok = all(v[t["tid"]][0] == "ACCEPT" for t in (base_m, base_e, base_t))
@@ -416,6 +443,49 @@ def binding_selftest(ev, rep):
     return {"mutants": [m["tid"] for m, _ in muts], "all_rejected_at_mutated_event": True}
 
 
+# --------------------------------------------------------------------------------------------- worker processes
+def distinct_token_items():
+    """one (el, at, g) per distinct token molli emits (emission only: nothing is interpreted in this process)"""
+    from molli.chem.atom import Element, AtomType, AtomGeom, Atom
+    seen, items = set(), []
+    for e in Element:
+        for t in AtomType:
+            for g in AtomGeom:
+                try:
+                    tok = Atom(e, atype=t, geom=g).get_mol2_type()
+                except Exception:
+                    tok = None
+                if tok not in seen:
+                    seen.add(tok)
+                    items.append([e.symbol, t.name, g.name])
+    return items
+
+
+def spawn(doc):
+    import subprocess, sys
+    wd = tlc.workdir("c07w")
+    (wd / "in.json").write_text(json.dumps(doc))
+    p = subprocess.Popen([sys.executable, "-m", "mbv.adapters.mol2text_worker", str(wd / "in.json"), str(wd / "out.json")],
+                         stdout=subprocess.PIPE, stderr=subprocess.STDOUT, text=True)
+    return p, wd
+
+
+def collect(handle, timeout=1500):
+    import shutil, subprocess
+    p, wd = handle
+    try:
+        try:
+            out, _ = p.communicate(timeout=timeout)
+        except subprocess.TimeoutExpired:
+            p.kill()
+            raise tlc.MachineryError("C07 worker process timed out")
+        if p.returncode != 0:
+            raise tlc.MachineryError(f"C07 worker process failed (rc={p.returncode}):\n{out[-2500:]}")
+        return json.loads((wd / "out.json").read_text())
+    finally:
+        shutil.rmtree(wd, ignore_errors=True)
+
+
 # --------------------------------------------------------------------------------------------- run
 def run(tier, seed, replay_path):
     if replay_path:
@@ -427,21 +497,30 @@ def run(tier, seed, replay_path):
     pool = ThreadPoolExecutor(WORKERS)
     futs = [pool.submit(run_model_job, j) for j in model_jobs(tier)]
     try:
-        # ---- B1: typing table of the real code, every triple and every bond type
-        ttraces, tcalls, trows, brows = typing_traces()
-        # ---- B2: structures generated by TLC + bundled files
+        # ---- B1': one triple per distinct emitted token goes to a FRESH process, where the token is first interpreted
+        #      on already-typed atoms (history) and only then on a fresh atom
+        th = spawn({"job": "typing_history", "seed": seed, "items": distinct_token_items()})
+        # ---- B2: structures generated by TLC + bundled files, executed in fresh worker processes (own call orders),
+        #      with history calls / re-reads interleaved
         cases = generate(ev, tier, seed)
         fcases, skipped = file_cases(tier)
         cases += fcases
+        indexed = list(enumerate(cases))
+        handles = [spawn({"job": "cases", "seed": seed * 100 + w, "items": indexed[w::WORKERS]}) for w in range(WORKERS)]
+        # ---- B1: typing table of the real code in this process, every triple and every bond type, fresh atoms only
+        ttraces, tcalls, trows, brows = typing_traces()
         straces, meta, scalls, samples = [], {}, 0, []
-        for ci, c in enumerate(cases):
-            trs, n, text = case_traces(ci, c)
-            scalls += n
-            for t, m in trs:
+        for h in handles:
+            doc = collect(h)
+            scalls += doc["calls"]
+            samples += doc["samples"]
+            for t, m in doc["traces"]:
                 straces.append(t)
                 meta[t["tid"]] = m
-            if c["src"] == "rec" and len(samples) < 2 and len(c["rec"]["atoms"]) >= 3 and c["rec"]["bonds"]:
-                samples.append({"recipe": c["rec"], "text": text, "events": [e["ev"] for e in trs[0][0]["ev"]]})
+        doc = collect(th)
+        htraces, hcalls = doc["traces"], doc["calls"]
+        ttraces += htraces
+        tcalls += hcalls
         t_real = time.time() - t0
         # ---- TLC validates everything
         tv, tres = T.validate("Mol2TextTrace", ttraces, trace_cfg(), chunk=650, par=WORKERS, tag="c07tt")
@@ -488,6 +567,12 @@ def run(tier, seed, replay_path):
                        "rejected_traces": len(sbad),
                        "by_kind": {k: sum(1 for c in cases if (c["obj"]["kind"] if c["src"] == "rec" else c["as"]) == k)
                                    for k in ("Mol", "Struct", "Ens")}},
+           history={"history_events": sum(1 for t in straces for e in t["ev"] if e["ev"] == "history"),
+                    "rereads_of_the_same_text": sum(1 for t in straces for e in t["ev"] if e["ev"] == "reread"),
+                    "unrelated_calls": sum(e["calls"] for t in straces + htraces for e in t["ev"] if e["ev"] == "history"),
+                    "tokens_first_interpreted_on_pretyped_atoms_in_a_fresh_process": sum(
+                        1 for t in htraces for e in t["ev"] if e["ev"] == "atype"),
+                    "worker_processes": WORKERS + 1},
            edits={"objects_edited_and_written_again": sum(1 for c in cases if c.get("edits")),
                   "operations": {k: sum(1 for c in cases for o in c.get("edits", []) if o["op"] == k)
                                  for k in ("bond", "atom", "move", "name", "alias")},
@@ -507,6 +592,8 @@ def run(tier, seed, replay_path):
         "edits are made through public attributes (bond.btype, atom.element/atype/geom/label, coords, atomic_charges, name) "
         "after a complete write/read/write/read cycle; Bond.set_mol2_type is not used for editing (it is @cache-decorated in "
         "the pinned tree: a repeated call with the same token is a no-op, outside this property)",
+        "history = calls of molli's public API on objects other than the one under test, made in the same process; state "
+        "shared across processes (files, environment) is not varied",
         "scope: whitespace-free labels, one-line names without leading/trailing blanks, finite coordinates |x| < 1e5 A, "
         "one bond per atom pair, ensembles with >= 1 conformer",
         "bond endpoints are compared as an unordered pair; an empty label and a bond type mol2 cannot express are free on "
@@ -529,7 +616,10 @@ def run(tier, seed, replay_path):
 # --------------------------------------------------------------------------------------------- replay
 def do_replay(path):
     doc = json.loads(open(path).read())
-    if doc.get("what") == "typing":
+    if doc.get("what") == "typing" and doc["tid"].startswith("th-"):
+        el = doc["tid"][3:]                                     # history first, then the fresh atom (this process is fresh)
+        traces = A.typing_history_rows([i for i in distinct_token_items() if i[0] == el], doc.get("seed", 0))[0]
+    elif doc.get("what") == "typing":
         _, el, at = doc["tid"].split("-", 2) if doc["tid"] != "t-bonds" else (None, None, None)
         evs = A.bond_rows()[0] if el is None else A.typing_row(el, at)[0]
         traces = [{"tid": doc["tid"], "ev": evs}]
@@ -537,7 +627,8 @@ def do_replay(path):
         case = doc["case"]
         o = realise(case)
         edit = (case["edits"], case["obj2"]) if doc["route"] == "loads" and case.get("edits") else None
-        evs, _, text = A.run_case(o, doc["route"], edit)
+        hist = {"where": ("before_read", "before_reread"), "rnd": random.Random(doc.get("seed", 0)), "prev": None}
+        evs, _, text = A.run_case(o, doc["route"], edit, hist)   # a fresh process: unrelated calls first, as in the run
         traces = [{"tid": "replay", "ev": evs}]
         print(text if text and len(text) < 3000 else "(text omitted)")
     v, _ = T.validate("Mol2TextTrace", traces, trace_cfg(), par=1, tag="c07rp")
